@@ -101,6 +101,9 @@ func TestC02(t *testing.T) {
 
 		total := new(big.Int)
 		classes := map[string]bool{}
+		if cfg.Unordered() {
+			classes["minters_listed_out_of_order"] = true
+		}
 		insideMinting, crossings := false, 0
 		prevT := lo - secNs
 		prevIdx := -1
